@@ -17,7 +17,7 @@ use crate::by_sid;
 use crate::comps::*;
 use crate::world_exec::{ret, Out, St};
 use specs::changeset::ChangeSet;
-use specs::hibitset::{AtomicBitSet, BitSetAll, BitSetAnd, BitSetLike, BitSetNot, BitSetOr, BitSetXor};
+use specs::hibitset::{BitSetAnd, BitSetLike, BitSetNot, BitSetOr, BitSetXor};
 #[nougat::gat(Type)]
 use specs::join::LendJoin;
 use specs::join::{Join, LendJoinType, MaybeJoin, ParJoin, RepeatableLendGet};
@@ -55,95 +55,37 @@ pub type CsSlots = [ChangeSet<Amt>; 4];
 // ---------------------------------------------------------------------------------------------
 // erased masks
 
-/// the masks of all supported member kinds; every `BitSetLike` method is delegated
-pub enum DynMask<'a> {
-    Ref(&'a BitSet),
-    Not(BitSetNot<&'a BitSet>),
-    Or(BitSetOr<&'a BitSet, &'a AtomicBitSet>),
-    All(BitSetAll),
-    Owned(BitSet),
-    And2(BitSetAnd<&'a BitSet, &'a BitSet>),
-    Or2(BitSetOr<&'a BitSet, &'a BitSet>),
-    Xor2(BitSetXor<&'a BitSet, &'a BitSet>),
-}
+/// the mask of any member kind, whatever type the implementation gives it; every `BitSetLike`
+/// method is delegated (so a change of a member's mask type is observed, not a build failure)
+pub struct DynMask<'a>(Box<dyn BitSetLike + Send + Sync + 'a>);
 
-macro_rules! mask_delegate {
-    ($s:expr, $m:ident ( $($a:expr),* )) => {
-        match $s {
-            DynMask::Ref(b) => b.$m($($a),*),
-            DynMask::Not(b) => b.$m($($a),*),
-            DynMask::Or(b) => b.$m($($a),*),
-            DynMask::All(b) => b.$m($($a),*),
-            DynMask::Owned(b) => b.$m($($a),*),
-            DynMask::And2(b) => b.$m($($a),*),
-            DynMask::Or2(b) => b.$m($($a),*),
-            DynMask::Xor2(b) => b.$m($($a),*),
-        }
-    };
+impl<'a> DynMask<'a> {
+    pub fn of<T: BitSetLike + Send + Sync + 'a>(t: T) -> Self {
+        DynMask(Box::new(t))
+    }
 }
 
 impl<'a> BitSetLike for DynMask<'a> {
     fn get_from_layer(&self, layer: usize, idx: usize) -> usize {
-        mask_delegate!(self, get_from_layer(layer, idx))
+        self.0.get_from_layer(layer, idx)
     }
     fn is_empty(&self) -> bool {
-        mask_delegate!(self, is_empty())
+        self.0.is_empty()
     }
     fn layer3(&self) -> usize {
-        mask_delegate!(self, layer3())
+        self.0.layer3()
     }
     fn layer2(&self, i: usize) -> usize {
-        mask_delegate!(self, layer2(i))
+        self.0.layer2(i)
     }
     fn layer1(&self, i: usize) -> usize {
-        mask_delegate!(self, layer1(i))
+        self.0.layer1(i)
     }
     fn layer0(&self, i: usize) -> usize {
-        mask_delegate!(self, layer0(i))
+        self.0.layer0(i)
     }
     fn contains(&self, i: Index) -> bool {
-        mask_delegate!(self, contains(i))
-    }
-}
-
-impl<'a> From<&'a BitSet> for DynMask<'a> {
-    fn from(b: &'a BitSet) -> Self {
-        DynMask::Ref(b)
-    }
-}
-impl<'a> From<BitSetNot<&'a BitSet>> for DynMask<'a> {
-    fn from(b: BitSetNot<&'a BitSet>) -> Self {
-        DynMask::Not(b)
-    }
-}
-impl<'a> From<BitSetOr<&'a BitSet, &'a AtomicBitSet>> for DynMask<'a> {
-    fn from(b: BitSetOr<&'a BitSet, &'a AtomicBitSet>) -> Self {
-        DynMask::Or(b)
-    }
-}
-impl<'a> From<BitSetAll> for DynMask<'a> {
-    fn from(b: BitSetAll) -> Self {
-        DynMask::All(b)
-    }
-}
-impl<'a> From<BitSet> for DynMask<'a> {
-    fn from(b: BitSet) -> Self {
-        DynMask::Owned(b)
-    }
-}
-impl<'a> From<BitSetAnd<&'a BitSet, &'a BitSet>> for DynMask<'a> {
-    fn from(b: BitSetAnd<&'a BitSet, &'a BitSet>) -> Self {
-        DynMask::And2(b)
-    }
-}
-impl<'a> From<BitSetOr<&'a BitSet, &'a BitSet>> for DynMask<'a> {
-    fn from(b: BitSetOr<&'a BitSet, &'a BitSet>) -> Self {
-        DynMask::Or2(b)
-    }
-}
-impl<'a> From<BitSetXor<&'a BitSet, &'a BitSet>> for DynMask<'a> {
-    fn from(b: BitSetXor<&'a BitSet, &'a BitSet>) -> Self {
-        DynMask::Xor2(b)
+        self.0.contains(i)
     }
 }
 
@@ -301,7 +243,7 @@ macro_rules! erase {
                 let mut $it = unsafe { tok.j_get(&mut v, $i) };
                 Item { idx: $i, enc: $body }
             });
-            (DynMask::from(m), g)
+            (DynMask::of(m), g)
         }))
     }};
     (L, $j:expr, |$i:ident, $it:ident| $body:expr) => {{
@@ -314,7 +256,7 @@ macro_rules! erase {
                     let mut $it = unsafe { tok.l_get(&mut v, $i) };
                     Item { idx: $i, enc: $body }
                 });
-                (DynMask::from(m), g)
+                (DynMask::of(m), g)
             }),
             PhantomData::<NoRep>,
         )
@@ -329,7 +271,7 @@ macro_rules! erase {
                     let mut $it = unsafe { tok.l_get(&mut v, $i) };
                     Item { idx: $i, enc: $body }
                 });
-                (DynMask::from(m), g)
+                (DynMask::of(m), g)
             }),
             PhantomData::<Rep>,
         )
@@ -343,7 +285,7 @@ macro_rules! erase {
                 let mut $it = unsafe { tok.p_get(&v, $i) };
                 Item { idx: $i, enc: $body }
             });
-            (DynMask::from(m), g)
+            (DynMask::of(m), g)
         }))
     }};
 }
